@@ -256,3 +256,10 @@ Theorem C12_vf2_premise :
   snd (search_subgraphs_with vf2 pattern host mcs) = snd (search_subgraphs nm em pattern host mcs).
 Proof. exact vf2_premise. Qed.
 Print Assumptions C12_vf2_premise.
+
+(** ** 10. no mapping is returned twice (the [seen] set), in any mode and direction *)
+Theorem C12_no_duplicates :
+  forall (defs : list N) (prune : bool) (wc : N) (g1 g2 : graph) (mcs : bool) (d : direction),
+  NoDup (get_mappings d (find_common_subgraph defs prune wc g1 g2 mcs)).
+Proof. exact get_mappings_nodup. Qed.
+Print Assumptions C12_no_duplicates.
